@@ -11,10 +11,10 @@ Open Scope Z_scope.
 Definition ecode (e : err) : Z :=
   match e with
   | MutateWhileIter => 1 | Failed => 2 | IndexOutOfBound => 3 | NotFound => 4 | KeyNotFound => 5 | EmptyPop => 6
-  | WrongKind => 7 | NotIterable => 8 | ControlOutsideLoop => 9 | Internal => 10
+  | WrongKind => 7 | NotIterable => 8 | ControlOutsideLoop => 9 | Internal => 10 | TypeMismatch => 11
   end.
 Definition scode (r : sig) : Z :=
-  match r with Next | Ret => 0 | Error e => ecode e | NoFuel => 99 | Brk | Cont => 98 end.
+  match r with Next | Ret => 0 | RetErr => 11 | Error e => ecode e | NoFuel => 99 | Brk | Cont => 98 end.
 Definition rcode (r : res) : Z := match r with Ok => 0 | Err e => ecode e end.
 
 Definition enc_val (v : cval) : list Z :=
